@@ -11,6 +11,18 @@ NOTES = {
     "C20-m3": "judged equivalent w.r.t. the literal property: isFinished() still becomes true only after run() returned and join() still returns after the Runnable was destroyed; "
               "only the order 'flag, then delete' vs 'delete, then flag' changes, which the property does not fix",
     "C20-m4": "a memory-ordering defect (relaxed store): invisible to the sequentially consistent scheduler of C20; reported by C15's Thread completion-flag family (ThreadSanitizer)",
+    "C03-m7": "missed by the checks as they stood (needs 8+ queue entries): caught after the deep-queue shape (10-14 threads) was added",
+    "C04-m7": "missed as the checks stood: caught after pushes whose argument aliases an element of the same buffer were added",
+    "C06-m7": "missed as the checks stood (ASan's quarantine never re-uses a key's address): caught after the re-assigned RoutingKey variable was added",
+    "C16-m7": "as the checks stood the C16 harness did not COMPILE against it (internal error, not a verdict): harness made signature-agnostic, clamping subscriber added",
+    "C17-m7": "missed as the checks stood: caught after one File object was carried through read / write / read",
+    "C18-m7": "missed as the checks stood (trees <= 4 deep): caught after the deep directory chain was added",
+    "C20-m7": "missed as the checks stood (needs pthread_create to fail): caught after EAGAIN fault injection + moved-from canary were added",
+    "C08-m7": "same root cause as C07-m7 (found independently by two agents): caught by C07 (LOST_TASK), the group-mate of C08",
+    "C02-m8": "caught through the assertion in unlock() (class owned by C01); C02's own deadlock needs the assertion compiled out",
+    "C14-m8": "missed as the checks stood: caught after initializer lists were read twice",
+    "C19-m8": "missed as the checks stood (one get() per process): caught after the call history of 5 and long resolvable names were added",
+    "C11-m8": "as the checks stood caught by C15 and C01 only; C11 itself catches it since the writer-writer exclusion oracle was added",
     "ring_pop_front_destroys_shell": "equivalent w.r.t. C09: destroying the moved-from shell right away is at least as correct as leaving it",
     "pool_worker_ignores_stop_when_work": "equivalent w.r.t. C07/C08: workers drain the queue during stop(); no task starts after stop() returned, every task is destroyed once",
     "path_pathname_size_minus_1": "equivalent w.r.t. C18: only getPathName of a path WITH trailing separator changes; the stated law concerns join(d, n), which never ends in a separator",
